@@ -276,6 +276,38 @@ def record(tier):
     return len(keys)
 
 
+IN_VIVO = ("two_delays_same_pair", "two_delays_same_pair_rev", "two_trigger_delays",
+           "two_trigger_delays_rev", "two_delays_shift2_pair", "two_delays_shift2_pair_rev",
+           "two_paths_shift2", "E_chain_shift_last_W", "sibling_groups", "nested_groups",
+           "weak_and_shift_init", "loop_weak_then_plain", "group_reentry")
+
+
+def in_vivo(rep):
+    """The delays accumulated by the scenario layer (minimum over the connections of a pair,
+    minimum over paths) are exercised where they are used: scenarios with several connections
+    of different delay between one pair / several paths are explored (all schedules) and the
+    C01 / C05 / C07 monitors judge them against the reference delays; a violation there means
+    that delays were compared or combined inconsistently."""
+    from . import sched, scenarios
+    jobs = [j for j in sched.quick_jobs(env.seed()) if j["name"] in IN_VIVO and j["budget"] == 0]
+    res = sched.run_jobs(jobs)
+    n = dict(jobs=len(jobs), execs=0, states=0)
+    for job, r in zip(jobs, res):
+        if r.get("error"):
+            raise RuntimeError(r["error"])
+        n["execs"] += r["execs"]
+        n["states"] += r["states"]
+        for v in r["viols"]:
+            if v["prop"] in ("C01", "C05", "C07") and v.get("cls") is None:
+                rep.report(dict(prop="C08", kind="accumulated-delay-wrong-in-vivo", cls=None,
+                                msg=f"{job['name']} [{sched._cfgs(job['cfg'])}]: "
+                                    f"[{v['prop']}/{v['kind']}] {v['msg']}"),
+                           dict(kind="schedule", scenario=job["scen"], cfg=job["cfg"],
+                                name=job["name"], choices=v.get("choices"), names=v.get("names"),
+                                orig=dict(prop=v["prop"], kind=v["kind"])))
+    return n
+
+
 def check(prop, tier):
     t0 = time.time()
     if tier == "quick":
@@ -301,6 +333,7 @@ def check(prop, tier):
         elif v["cls"] is None and seen[sg] > 5:
             continue     # enough replay files for one unclassified kind
         rep.report(v, dict(kind="call", module="mc.enum_c08", inputs=v["inputs"]))
+    vivo = in_vivo(rep)
     rc = rep.finish()
     n = cx.n
     cov = dict(
@@ -314,7 +347,7 @@ def check(prop, tier):
         samples=[dict(a=desc(TieredInterval(1, 0, cutoff=1, pre_length=2)),
                       b=desc(TieredInterval(0, 2, cutoff=2, pre_length=2)),
                       law="trichotomy, monotone action over all t in {0..3}^2")],
-        exhaustive=True, counts=n, violation_kinds={f"{k[0]}|{k[1]}": c for k, c in seen.items()},
+        exhaustive=True, counts=n, in_vivo=vivo, violation_kinds={f"{k[0]}|{k[1]}": c for k, c in seen.items()},
         known_findings_hit={k: v[1] for k, v in rep.known_hits.items()},
     )
     evidence.write("C08", tier, "model_checking", cov,
